@@ -250,6 +250,15 @@ def compare(chk, v, tname, W, R, where, vn):
     _V[0] = v
     tags = tag_checks(R["eff"])
 
+    def tag_handed_on(cell):
+        """the tag read into `cell` is not tested where it is read but its value is used afterwards (returned by a helper, combined
+        into a value tested later): a deferred test, not modelled -> undecided"""
+        for x_ in flat(R["eff"]):
+            if (x_["e"] in ("local", "store", "return") and isinstance(x_.get("val"), tuple) and sym.contains(x_["val"], cell)) or \
+                    (x_["e"] == "inlined" and isinstance(x_.get("ret"), tuple) and sym.contains(x_["ret"], cell)):
+                return True
+        return False
+
     def next_tag(cell, op=None):
         """the test that follows this read of the tag cell"""
         if op is not None and op.get("eff_id") in tags:
@@ -560,6 +569,8 @@ def compare(chk, v, tname, W, R, where, vn):
                 if wc is not None:
                     cell = rp[1] if rp[0] == "addr" else rp
                     tc = next_tag(cell, r)
+                    if tc is None and tag_handed_on(cell):
+                        return None
                     if tc is None or tc[0] != wc or not tc[1]:
                         return ["%s (line %s): tag %d written; the reader %s" % (ctx, r["l"], wc, "never tests what it read" if tc is None else
                                                                          "expects %d" % tc[0] if tc[0] != wc else "is not stopped by a mismatch")]
@@ -602,6 +613,9 @@ def compare(chk, v, tname, W, R, where, vn):
                 if wc is not None:
                     cell = rp[1] if rp[0] == "addr" else rp
                     tc = next_tag(cell, r)
+                    if tc is None and tag_handed_on(cell):
+                        from sa.pipeline import AnalysisBroken
+                        raise AnalysisBroken("%s (line %s): the tag is not tested where it is read but handed on (a deferred test): not modelled" % (c, r["l"]))
                     if tc is None:
                         problems.append("%s (line %s): tag %d written but the reader never tests what it read" % (c, r["l"], wc))
                     elif tc[0] != wc:
